@@ -2,6 +2,7 @@ package bounds
 
 import (
 	"fmt"
+	"os"
 	"go/constant"
 	"go/token"
 	"go/types"
@@ -391,6 +392,16 @@ func (it *interp) addrOf(d *disjunct, f frameID, v ssa.Value) (addr, bool) {
 
 func zeroMarker(a addr) string { return fmt.Sprintf("%d:%p|zero", a.root.f, a.root.v) }
 
+// forget drops a memory cell whose content is no longer known. The zero marker of its object says
+// "cells that are not materialised are still zero", so it has to go as well: otherwise a later load
+// of the forgotten cell would read the constant 0 instead of an unknown value.
+func (d *disjunct) forget(mk string) {
+	if c := d.mem[mk]; c != nil && !strings.HasSuffix(mk, "|zero") {
+		delete(d.mem, zeroMarker(c.a))
+	}
+	delete(d.mem, mk)
+}
+
 func (it *interp) zeroRep(t types.Type) rep {
 	switch kindOf(t) {
 	case kInt:
@@ -440,19 +451,23 @@ func (it *interp) store(d *disjunct, f frameID, a addr, t types.Type, val rep, v
 		if strings.HasPrefix(mk, rootPrefix) {
 			// same object: overlapping paths are invalidated
 			p := c.a.path
-			if p == a.path || strings.HasPrefix(p, a.path+".") || strings.HasPrefix(p, a.path+"[") ||
+			if p == a.path {
+				delete(d.mem, mk) // rewritten below (or the marker is dropped there)
+			} else if strings.HasPrefix(p, a.path+".") || strings.HasPrefix(p, a.path+"[") ||
 				strings.HasPrefix(a.path, p+".") || strings.HasPrefix(a.path, p+"[") || pathsMayOverlap(p, a.path) {
-				delete(d.mem, mk)
+				d.forget(mk)
 			}
 			continue
 		}
 		// different root: may alias only if the types are identical and the two roots may denote
 		// the same object
 		if types.Identical(c.typ, t) && rootsMayAlias(c.a.root.v, a.root.v) {
-			delete(d.mem, mk)
+			d.forget(mk)
 		}
 	}
 	if strings.Contains(a.path, "[*]") {
+		// some element was written: the object is no longer known to be zero elsewhere
+		delete(d.mem, zeroMarker(a))
 		return
 	}
 	if st, ok := t.Underlying().(*types.Struct); ok {
@@ -461,6 +476,8 @@ func (it *interp) store(d *disjunct, f frameID, a addr, t types.Type, val rep, v
 		return
 	}
 	if val.kind == kNone {
+		// an untracked value was written: unmaterialised cells of the object are not zero any more
+		delete(d.mem, zeroMarker(a))
 		return
 	}
 	d.mem[k] = &memCell{a: a, val: val, typ: t}
@@ -552,7 +569,11 @@ func (it *interp) storeStruct(d *disjunct, f frameID, a addr, st *types.Struct, 
 				fr = it.freshRep(d, f, fieldKey{v, "." + fld.Name()}, fld.Type())
 			}
 		default:
+			delete(d.mem, zeroMarker(a)) // content unknown: the object is no longer known to be zero
 			continue
+		}
+		if fr.kind == kNone {
+			delete(d.mem, zeroMarker(a))
 		}
 		if fr.kind != kNone {
 			d.mem[sub.key()] = &memCell{a: sub, val: fr, typ: fld.Type()}
@@ -613,6 +634,9 @@ func (it *interp) need(s *state, fn *ssa.Function, in ssa.Instruction, kind, tex
 	var detail func() string
 	for _, d := range s.ds {
 		for _, g := range mk(d) {
+			if dbg := os.Getenv("RTPCHECK_NEEDDBG"); dbg != "" && strings.Contains(core.FuncName(fn), dbg) && kind == "IDX" {
+				fmt.Printf("NEED %s %s entails=%v :: %s\n", it.prog.Position(in.Pos()), kind, it.entails(d, g), it.describe(d, g))
+			}
 			if !it.entails(d, g) {
 				ok = false
 				dd, gg := d, g
